@@ -483,6 +483,9 @@ class SymExec:
             # the right operand may not execute; it has no side effects in this code base
             # that we track, but evaluate it on a copy to be safe
             saved = dict(self.st) if self.st is not None else None
+            # short-circuit: the right operand runs only when the left one is true (&&) / false (||)
+            if self.st is not None and isinstance(l, Poly):
+                self.add_fact(l, op == "And")
             r = self.eval(e["r"])
             if saved is not None and self.st is not None:
                 self.st = self.join_states([self.st, saved])
@@ -1753,6 +1756,16 @@ class SymExec:
                 both = sorted([self._p(b)] + args, key=repr)
                 return opaque(name, both)
             return opaque(name, [self._p(b)] + args)
+        if name in ("unwrap", "expect") and e["recv"].get("ty", "").startswith(("std::option::Option", "std::result::Result", "&std::option::Option")):
+            v = self.eval(recv)
+            self.log("unwrap", node=e, recv=self._p(v), facts=self.path_facts())
+            return opaque("unwrap", [self._p(v)])
+        if name in ("is_empty", "last", "first", "last_mut", "first_mut") and not e["args"]:
+            # keyed by the place, not by the current contents: `v.is_empty() || v.last().unwrap()..` talk about the same vector
+            lvp = self.lvalue(recv)
+            if lvp[0] == "key":
+                self.eval(recv)
+                return opaque(name.replace("_mut", ""), [Poly.atom("place:" + lvp[1])])
         if name in ("as_mut", "as_ref", "as_deref", "as_deref_mut", "as_slice", "as_mut_slice", "iter", "is_some", "is_none") and not e["args"]:
             v = self.eval(recv)
             if name in ("as_slice", "as_mut_slice"):
